@@ -19,6 +19,7 @@ import (
 	"path/filepath"
 	"sort"
 	"strings"
+	"sync"
 	"time"
 
 	kc "github.com/dapr/kit/crypto"
@@ -1319,6 +1320,14 @@ func stripX(s string) (string, string) {
 	return s[:i], s[i+3:]
 }
 
+var traceMu sync.Mutex
+
+func (h *H) trace() {
+	traceMu.Lock()
+	h.res.Traces++
+	traceMu.Unlock()
+}
+
 func (h *H) compareWithModel() {
 	if h.f.Drv == "" {
 		h.res.Note("model driver unavailable: monitors only")
@@ -1354,7 +1363,7 @@ func (h *H) compareWithModel() {
 				h.res.Violate("sym-interop-mismatch", "the output for a valid input differs from an independent implementation of the standard the algorithm name denotes (or only the real code can open it)", c)
 			}
 		} else {
-			h.res.Traces++
+			h.trace()
 		}
 		if x == "differ" {
 			h.res.Disagree("hand-written model part (RFC 3394 / CBC / CBC-HMAC) vs independently written Kit.Crypto spec", map[string]any{"line": h.lines[i]}, m, impl)
@@ -1549,17 +1558,33 @@ func main() {
 	}
 	tAsym := time.Since(t0) - tSym
 	if !f.Search {
-		h.rsaInterop()
-		h.ecdsaInterop()
-		h.ed25519Interop()
-		h.asymFull()
+		// the comparisons with the Lean driver are independent of each other: one driver process each,
+		// in parallel (the random streams are forked here, in a fixed order)
+		r1, r2, r3, r4 := h.rng.Fork(), h.rng.Fork(), h.rng.Fork(), h.rng.Fork()
+		var wg sync.WaitGroup
+		run := func(name string, fn func()) {
+			wg.Add(1)
+			go func() {
+				defer wg.Done()
+				defer func() {
+					if p := recover(); p != nil {
+						res.Note(fmt.Sprintf("harness: %s panicked: %v", name, p))
+						res.Disagree("harness", map[string]any{"part": name}, fmt.Sprint(p), "")
+					}
+				}()
+				fn()
+			}()
+		}
+		run("rsa interop", func() { h.rsaInterop(r1) })
+		run("ecdsa interop", func() { h.ecdsaInterop(r2) })
+		run("ed25519 interop", func() { h.ed25519Interop(r3) })
+		run("asymmetric model end to end", func() { h.asymFull(r4) })
+		run("model comparison", h.compareWithModel)
+		wg.Wait()
 	}
 	tRSA := time.Since(t0) - tSym - tAsym
-	if !f.Search {
-		h.compareWithModel()
-	}
 	res.Exhaustive = false
-	res.Note(fmt.Sprintf("wall: symmetric+subpackages %.1fs, asymmetric %.1fs, rsa+ecdsa+ed25519 interop vs Lean %.1fs, model comparison %.1fs; %d request lines", tSym.Seconds(), tAsym.Seconds(), tRSA.Seconds(), (time.Since(t0) - tSym - tAsym - tRSA).Seconds(), len(h.lines)))
+	res.Note(fmt.Sprintf("wall: symmetric+subpackages %.1fs, asymmetric %.1fs, interop vs Lean + model comparison (in parallel) %.1fs; %d request lines", tSym.Seconds(), tAsym.Seconds(), tRSA.Seconds(), len(h.lines)))
 	keys := make([]string, 0)
 	for k := range res.Distribution {
 		keys = append(keys, k)
